@@ -266,6 +266,28 @@ def run(ctx):
     # no guard across await) is part of "no request can hang"
     import c11
     c11.rules(R, F, CG)
+    # the ledger row for `log.topics[idx]` in get_logs is reviewed as "guarded by idx < len": that guard is re-checked here on
+    # every run (the same obligation C18 records) - an off-by-one in it turns an unauthenticated eth_getLogs into a panic,
+    # which under the shipped `panic = abort` profile stops the server
+    try:
+        import c18 as _c18
+        from tablerules import db_fn as _db_fn
+        gl = _db_fn(F, "get_logs")
+        n_ti = 0
+        if gl is not None:
+            for g2 in [gl] + F.descendants(gl.id):
+                for c in g2.calls():
+                    if g2.is_cleanup(c.bb) or not (c.trait or "").endswith("Index") or (c.method or "") != "index" or "SingleOrVec" in (c.self_ty or ""):
+                        continue
+                    if "FixedBytesED" not in (c.self_ty or "") and "LogED" not in (c.self_ty or "") and "topics" not in show(origin(g2, c.args[0])):
+                        continue
+                    n_ti += 1
+                    R.ob(_c18._guarded_index(F, gl, g2, c), "GUARD", c.where(), "GUARD|get_logs|topic-index:%s" % ("closure" if g2 is not gl else "body"),
+                         "log.topics[idx] is reached without `idx < log.topics.len()` on the path: a filter position at or beyond the log's topic count "
+                         "panics (the reviewed ledger row for this site assumes the guard)", sample={"rule": "GUARD", "fn": g2.name[-50:], "index": "log.topics[idx]", "guard": "idx < len"})
+        R.counts["get_logs_topic_index_sites"] = n_ti
+    except ImportError:
+        R.note("c18 not importable: topic-index guard not re-checked under C09")
     return R
 
 
